@@ -85,7 +85,7 @@ func Setup() {
 				l.SetLevel(btclog.LevelDebug)
 				neutrino.UseLogger(l)
 				q := be.Logger("QURY")
-				q.SetLevel(btclog.LevelTrace)
+				q.SetLevel(btclog.LevelDebug)
 				query.UseLogger(q)
 				pl := be.Logger("PEER")
 				pl.SetLevel(btclog.LevelDebug)
